@@ -1,5 +1,6 @@
 /-
-  C16 (main theorem, terms) — the Typst rendering is unambiguous.
+  C16 (main theorems) — the Typst rendering is unambiguous (terms: `typst_term_injective`; whole values —
+  terms, sentences, tasks, also across kinds — `typst_injective`).
 
   PROVED (all sizes): for the markup constants regenerated from the crate (`Gen.typstC`; the needed facts
   about them — which constants begin and end with a space, whose first words differ — are decidable and
@@ -17,9 +18,10 @@
   serialization (`dec_ser`: prefix / infix compound forms, bracket sets, statements, atoms), hence it is
   injective.
 -/
-import Proofs.Typst.Final
+import Proofs.Typst.ValueInj
 import NarseseModel.Gen.Formats
 import Props.C16
+import Props.C01b
 set_option autoImplicit false
 
 namespace Narsese.Props.C16
@@ -54,6 +56,22 @@ theorem typst_decodes (t : Term) (ht : wfTy Gen.typstC t = true) :
   rw [typst_words t ht]
   have := dec_ser typstOK_crate t ht (tb t) [] (Nat.le_refl _)
   simpa using this
+
+/-- the sentence-level facts about the constants (re-decided on the regenerated table) -/
+theorem typstItemsOK_crate : TypstItemsOK Gen.typstC := ⟨typstOK_crate, by decide +kernel⟩
+
+/-- **Typst rendering of whole values is injective**: two well-formed terms, sentences or tasks — of the same or
+of different kinds — with the same Typst text are the same value -/
+theorem typst_injective (v w : Narsese) (hv : wfTyN Gen.typstC v = true) (hw : wfTyN Gen.typstC w = true)
+    (h : typstN Gen.typstC v = typstN Gen.typstC w) : v = w :=
+  typstN_injective typstItemsOK_crate v w hv hw h
+
+theorem typst_injective_gen (C : TypstConsts) (hV : TypstItemsOK C) (v w : Narsese) (hv : wfTyN C v = true)
+    (hw : wfTyN C w = true) (h : typstN C v = typstN C w) : v = w :=
+  typstN_injective hV v w hv hw h
+
+/-- non-vacuity: the C01 sample values are well-formed for the renderer -/
+example : wfTyN Gen.typstC (.term C01.sample) = true := by decide +kernel
 
 /-- necessity of the name condition: a name with a doubled space and one with a single space collide
 (whitespace inside a name is squeezed by the post-processing) -/
